@@ -98,41 +98,45 @@ func (h *Hook) Run(_ htypes.BindingType, context []bctx.BindingContext, logLabel
 
 	versionedContextList := bctx.ConvertBindingContextList(h.Config.Version, freshBindingContext)
 
-	contextPath, err := h.prepareBindingContextJsonFile(versionedContextList)
-	if err != nil {
-		return nil, err
-	}
+	var contextPath, metricsPath, admissionPath, conversionPath, kubernetesPatchPath string
 
-	metricsPath, err := h.prepareMetricsFile()
-	if err != nil {
-		return nil, err
-	}
-
-	admissionPath, err := h.prepareAdmissionResponseFile()
-	if err != nil {
-		return nil, err
-	}
-
-	conversionPath, err := h.prepareConversionResponseFile()
-	if err != nil {
-		return nil, err
-	}
-
-	kubernetesPatchPath, err := h.prepareObjectPatchFile()
-	if err != nil {
-		return nil, err
-	}
-
-	// remove tmp file on hook exit
+	// remove tmp files on hook exit, also when not all of them could be created
 	defer func() {
 		if app.DebugKeepTmpFilesVar != "yes" {
-			_ = os.Remove(contextPath)
-			_ = os.Remove(metricsPath)
-			_ = os.Remove(conversionPath)
-			_ = os.Remove(admissionPath)
-			_ = os.Remove(kubernetesPatchPath)
+			for _, tmpPath := range []string{contextPath, metricsPath, conversionPath, admissionPath, kubernetesPatchPath} {
+				if tmpPath != "" {
+					_ = os.Remove(tmpPath)
+				}
+			}
 		}
 	}()
+
+	var err error
+
+	contextPath, err = h.prepareBindingContextJsonFile(versionedContextList)
+	if err != nil {
+		return nil, err
+	}
+
+	metricsPath, err = h.prepareMetricsFile()
+	if err != nil {
+		return nil, err
+	}
+
+	admissionPath, err = h.prepareAdmissionResponseFile()
+	if err != nil {
+		return nil, err
+	}
+
+	conversionPath, err = h.prepareConversionResponseFile()
+	if err != nil {
+		return nil, err
+	}
+
+	kubernetesPatchPath, err = h.prepareObjectPatchFile()
+	if err != nil {
+		return nil, err
+	}
 
 	envs := make([]string, 0)
 	envs = append(envs, os.Environ()...)
